@@ -103,6 +103,7 @@ package tensor
 //@ func tensor.StdEng.StackDense
 //@   props C10
 //@   mode rank asptr("tensor.Dense", t).shape
+//@   config maxrank_thorough 4
 //@   config maxrank_quick 2
 //@   config devirt tensor.DenseTensor=*tensor.Dense
 //@   config frame any
